@@ -75,4 +75,24 @@ def rules(t):
         if fmt(t.arg(c, 1)) not in fmt(t.arg(c, 2)): r.bad("server-out-id", c, "packets of one client are sealed for another id")
     for c in t.calls(r"RenetServer::process_packet_from$", t.fn("renet_netcode::server::handle_server_result")): r.site(c)
     out.append(r)
+    r = RuleResult("C20.e", "client transport: every datagram the netcode client produces (disconnect, payload, handshake/keep-alive) is handed to the socket on every path; disconnect_all walks the netcode server's own client table", floor=5)
+    import rules.C09 as C09
+    for f in t.fns(r"^renet_netcode::client::NetcodeClientTransport::(update|send_packets|disconnect)$"):
+        sends = list(t.calls(r"UdpSocket::send_to$", f))
+        for c in t.calls(r"NetcodeClient::(disconnect|generate_payload_packet|update)$", f):
+            r.site(c, short(callee_name(c.node)))
+            me = fmt(f.call_origin(c.node))
+            mine = [x for x in sends if me[:60] in fmt(t.arg(x, 1)) or me[:60] in fmt(t.arg(x, 2))]
+            e = t.result_edges(f, c)
+            if not e: r.bad(f"{f.path}|{method_of(callee_name(c.node))}|unchecked", c, "result of the netcode call is not matched"); continue
+            start = (e[0][0], len(f.blocks[e[0][0]]["stmts"]))
+            avoid = {e[1]} if e[0][1] != e[1][1] else set()
+            ok, w = must_pass(f, start, {pos(x) for x in mine}, avoid_edges=avoid)
+            if not ok: r.bad(f"{f.path}|{method_of(callee_name(c.node))}|not-sent", c, f"the datagram produced by {short(callee_name(c.node))} is not sent on every path: the peer never learns (e.g. a disconnect during the handshake leaves a half-open session on the server)")
+    da = t.fn("NetcodeServerTransport::disconnect_all")
+    for c in t.calls(r"NetcodeServer::disconnect$", da):
+        r.site(c, "disconnect_all")
+        if not re.search(r"NetcodeServer::clients_id\(&\*?P1\(self\)\.netcode_server\)", fmt(t.arg(c, 1))): r.bad("disconnect_all|src", c, f"disconnect_all disconnects the ids of {fmt(t.arg(c,1))[:80]}, not of the netcode server's own client table: sessions the message layer already dropped stay open")
+    if not list(t.calls(r"NetcodeServer::disconnect$", da)): r.bad("disconnect_all|missing", None, "disconnect_all does not disconnect netcode sessions")
+    out.append(r)
     return out
